@@ -465,6 +465,7 @@ func (b *batch) probe(limit int, held int, requireFill bool, sigTail string, wit
 	if atomic.AddInt64(&b.env.probeN, 1)%2 == 0 {
 		res = "events"
 	}
+	before := atomic.LoadInt64(b.env.hc.ctr(b.host)) // streams in flight for this host; nothing else of the batch is running
 	extra := b.startOn("ok", res)
 	o, ok := b.finish(extra)
 	if !ok {
@@ -472,7 +473,7 @@ func (b *batch) probe(limit int, held int, requireFill bool, sigTail string, wit
 		return mine, false
 	}
 	// judge "forwarded" only when the probe's handler has returned (whatever it does after answering has then happened)
-	if !b.inflightIs(int64(limit)) {
+	if !b.inflightIs(before) {
 		b.env.r.Inconclusive("watchdog: the over-limit probe's handler did not return")
 		return mine, false
 	}
